@@ -239,9 +239,11 @@ CHECKS = {
             "live original), C08_bind_null, C08_two_buffer_history (TWO buffers: histories interleaving any operations inside each "
             "with copy constructions of nodes from one into the other - `xcopy`, all referents duplicated - keep the invariant in "
             "BOTH: no reference ever denotes anything outside its own buffer).",
-            "Partial: the history invariant is a theorem for node classes in one or two buffers; for references held in dynamic "
-            "arrays and dynamic structs, referents that are arrays, and a third buffer / other contexts it is established by the "
-            "oracle on generated histories against the executable heap model, not by induction in Lean.",
+            "Partial: the history invariant is a theorem for node classes in one or two buffers - static structs of scalars, Ref and "
+            "UnionRef fields, and dynamic arrays of references (a node with a size word, a length word and n slots: tied as such, as "
+            "holders and as referents); for references held in dynamic structs next to other dynamic fields and a third buffer / "
+            "other contexts it is established by the oracle on generated histories against the executable heap model, not by "
+            "induction in Lean.",
             "7/C08"),
     "C09": ("Lean 4 proof: window-translation lemma for patch application + the agreement-strengthened round trip => the byte copy "
             "of a written object reads as the same value anywhere; frame lemma for independence; executable heap model tied on all "
